@@ -16,6 +16,13 @@ Assumption (operating system): `local_addr()` of a socket bound to `(ip, p)` is 
 -/
 namespace Litep2pVerif.Addr
 
+instance instDecEqExcept {ε α : Type} [DecidableEq ε] [DecidableEq α] : DecidableEq (Except ε α) := fun a b =>
+  match a, b with
+  | .ok x, .ok y => if h : x = y then isTrue (by rw [h]) else isFalse (by intro h'; cases h'; exact h rfl)
+  | .error x, .error y => if h : x = y then isTrue (by rw [h]) else isFalse (by intro h'; cases h'; exact h rfl)
+  | .ok _, .error _ => isFalse (by intro h; cases h)
+  | .error _, .ok _ => isFalse (by intro h; cases h)
+
 /-- `std::net::SocketAddr`. -/
 structure SockAddr where
   ip : IpAddr
